@@ -299,8 +299,17 @@ class Interp:
                             stack.append((t['else'], pt))
                             stack.append((zero[0], pf))
                     else:
-                        for target in dict.fromkeys([x[1] for x in t['ts']] + [t['else']]):
-                            stack.append((target, path.fork()))
+                        nv = path.num.get((body.id, pl['l'])) if pl is not None and not pl.get('p') else None
+                        zt = [tgt for v, tgt in t['ts'] if v == '0']
+                        if nv == '0':
+                            # a counter known to be zero: `match n { 0 => .., 1 => .., _ => .. }` takes the 0 arm (or the default one)
+                            stack.append((zt[0] if zt else t['else'], path))
+                        elif nv == '+':
+                            for target in dict.fromkeys([x[1] for x in t['ts'] if x[0] != '0'] + [t['else']]):
+                                stack.append((target, path.fork()))
+                        else:
+                            for target in dict.fromkeys([x[1] for x in t['ts']] + [t['else']]):
+                                stack.append((target, path.fork()))
         return out
 
     def _panic_message(self, body, bb):
